@@ -22,6 +22,9 @@ PLAN = {
     "C09a": "C09 C08", "C09b": "C09 C07 C18", "C10a": "C10", "C10b": "C13 C10", "C11a": "C11", "C11b": "C11", "C13a": "C13", "C13b": "C13",
     "C14a": "C14", "C14b": "C14", "C15a": "C15", "C15b": "C15 C06", "C16a": "C16", "C16b": "C16 C04", "C17a": "C17", "C17b": "C17 C12", "C12a": "C12 C17",
     "C18a": "C18", "C18b": "C18", "C19a": "C19", "C19b": "C19", "C20a": "C20", "C20b": "C20",
+    "C01c": "C01", "C02c": "C02 C03", "C03c": "C03", "C04c": "C04", "C05c": "C05", "C06c": "C06", "C07c": "C07 C11", "C08c": "C08 C11",
+    "C09c": "C09 C08", "C10c": "C10 C14", "C11c": "C11", "C12c": "C12", "C13c": "C13", "C14c": "C14", "C15c": "C15 C03", "C16c": "C16",
+    "C17c": "C17", "C18c": "C18", "C19c": "C19", "C20c": "C20",
 }
 
 
